@@ -225,6 +225,8 @@ def check_unwraps(rep, fl, rule="R12.4"):
 
 
 def check_C12(rep, fl):
+    import props_locks
+    props_locks.check_lock_order(rep, fl, rule="R12.5")
     check_closed_first(rep, fl)
     check_close_sequence(rep, fl)
     check_worker_exit(rep, fl)
@@ -455,6 +457,8 @@ def check_wait_fn(rep, fl, rule="R10.4"):
 
 
 def check_C10(rep, fl):
+    import props_locks
+    props_locks.check_lock_order(rep, fl, rule="R10.5")
     check_fifo(rep, fl)
     check_handle_item_sync(rep, fl)
     check_wait_release(rep, fl)
